@@ -8,7 +8,8 @@ of the two.
 -/
 namespace Esp.Reconnect
 
-def inflightPc : Pc → Bool | .inStart | .inFinish => true | _ => false
+/-- suspended while holding the lock: in a client call or in a user callback -/
+def inflightPc : Pc → Bool | .inStart | .inFinish | .inOnConnect | .inOnError _ | .inOnDisc => true | _ => false
 
 structure LockInv (s : St) : Prop where
   a : ∀ (i : Nat) (t : Task), s.tasks[i]? = some t → inflightPc t.pc = true → s.locked = true
@@ -22,6 +23,24 @@ structure HeldBy (s : St) (tid : Nat) : Prop where
   l : s.locked = true
   n : ∀ (i : Nat) (t : Task), i ≠ tid → s.tasks[i]? = some t → inflightPc t.pc = false
   g : ∀ w ∈ s.waiters, w.2 ≠ .granted
+
+theorem getElem?_setTask {s : St} {tid : Nat} {f : Task → Task} {i : Nat} {t : Task}
+    (h : (setTask s tid f).tasks[i]? = some t) : ∃ t0, s.tasks[i]? = some t0 ∧ t = (if tid = i then f t0 else t0) := by
+  simp only [setTask] at h
+  rw [List.getElem?_modify] at h
+  cases h0 : s.tasks[i]? with
+  | none => simp [h0] at h
+  | some t0 =>
+    simp only [h0, Option.map_eq_map, Option.map_some, Option.some.injEq] at h
+    exact ⟨t0, rfl, h.symm⟩
+
+theorem kind_acquire (s : St) (tid i : Nat) (t : Task) (h : (acquire s tid).1.tasks[i]? = some t) :
+    ∃ t0, s.tasks[i]? = some t0 ∧ t0.kind = t.kind := by
+  unfold acquire at h
+  split at h
+  · exact ⟨t, h, rfl⟩
+  · obtain ⟨t0, h0, rfl⟩ := getElem?_setTask h
+    exact ⟨t0, h0, by split <;> rfl⟩
 
 /-! ## frame: procedures that leave lock, waiters and tasks alone -/
 
@@ -52,9 +71,6 @@ variable (s : St)
 @[simp] theorem locked_cancelTimer : (cancelTimer s).locked = s.locked := rfl
 @[simp] theorem waiters_cancelTimer : (cancelTimer s).waiters = s.waiters := rfl
 @[simp] theorem tasks_cancelTimer : (cancelTimer s).tasks = s.tasks := rfl
-@[simp] theorem locked_handleFailure (k) : (handleFailure s k).locked = s.locked := rfl
-@[simp] theorem waiters_handleFailure (k) : (handleFailure s k).waiters = s.waiters := rfl
-@[simp] theorem tasks_handleFailure (k) : (handleFailure s k).tasks = s.tasks := rfl
 end frame
 
 /-! ## list facts -/
@@ -296,13 +312,25 @@ theorem HeldBy.setPc {s : St} {tid : Nat} (h : HeldBy s tid) (f : Task → Task)
   · intro w hw hg; exact absurd hg (g w hw)
   · intro w hw; exact g w (List.mem_of_mem_tail hw)
 
+theorem failEnd_inv (s : St) (k : ErrK) (tid : Nat) (h : HeldBy s tid) : LockInv (failEnd s k tid) := by
+  unfold failEnd
+  exact afterFail_inv _ _ (h.congr rfl rfl rfl)
+
+theorem failBegin_inv (s : St) (k : ErrK) (tid : Nat) (h : HeldBy s tid) : LockInv (failBegin s k tid) := by
+  unfold failBegin
+  dsimp only
+  have h1 : HeldBy (emit (setState s .disconnected) (.onConnectError k)) tid := h.congr rfl rfl rfl
+  split
+  · exact h1.setPc _
+  · exact failEnd_inv _ _ _ h1
+
 theorem connectLocked_inv (s : St) (tid : Nat) (h : HeldBy s tid) : LockInv (connectLocked s tid) := by
   unfold connectLocked
   split
   · exact release_finish s tid h
   · dsimp only
     split
-    · exact afterFail_inv _ _ (h.congr (by simp) (by simp) (by simp))
+    · exact failBegin_inv _ _ _ (h.congr (by simp) (by simp) (by simp))
     · have h' : HeldBy { emit (setState s .connecting) .attempt with cli := .starting } tid := h.congr rfl rfl rfl
       exact h'.setPc _
 
@@ -399,13 +427,21 @@ theorem scheduleConnect_held (s : St) (d tid : Nat) (h : HeldBy s tid) : HeldBy 
   · exact callConnectOnce_held s tid h
   · exact h.congr rfl rfl rfl
 
-theorem discLocked_inv (s : St) (tid : Nat) (e : Bool) (h : HeldBy s tid) : LockInv (discLocked s tid e) := by
-  unfold discLocked
+theorem discEnd_inv (s : St) (tid : Nat) (e : Bool) (h : HeldBy s tid) : LockInv (discEnd s tid e) := by
+  unfold discEnd
   dsimp only
-  have h1 := release_finish _ tid (h.congr (s' := emit (setState s .disconnected) (.onDisconnect e)) rfl rfl rfl)
+  have h1 := release_finish _ tid h
   split
   · exact h1
   · exact scheduleConnect_inv _ _ h1
+
+theorem discLocked_inv (s : St) (tid : Nat) (e : Bool) (h : HeldBy s tid) : LockInv (discLocked s tid e) := by
+  unfold discLocked
+  dsimp only
+  have h1 : HeldBy (emit (setState s .disconnected) (.onDisconnect e)) tid := h.congr rfl rfl rfl
+  split
+  · exact h1.setPc _
+  · exact discEnd_inv _ _ _ h1
 
 theorem startLocked_inv (s : St) (tid : Nat) (h : HeldBy s tid) : LockInv (startLocked s tid) := by
   unfold startLocked
@@ -540,27 +576,62 @@ theorem wakeTask_inv (s : St) (tid : Nat) (t : Task) (h : LockInv s) (ht : s.tas
   · -- inStart
     have hh := held_of_inflight s tid t h ht (by rename_i hp; simp [hp, inflightPc])
     split
-    · exact afterFail_inv _ _ (hh.congr (s' := handleFailure { s with cli := .idle } .other) rfl rfl rfl)
+    · exact failBegin_inv _ _ _ (hh.congr (s' := { s with cli := .idle }) rfl rfl rfl)
     · split
       · have : HeldBy (setState (stopZc { s with cli := .finishing }) .handshaking) tid :=
           hh.congr (by simp) (by simp) (by simp)
         exact this.setPc _
-      · exact afterFail_inv _ _ (hh.congr (s' := handleFailure { s with cli := .idle } _) rfl rfl rfl)
+      · exact failBegin_inv _ _ _ (hh.congr (s' := { s with cli := .idle }) rfl rfl rfl)
       · exact h
   · -- inFinish
     have hh := held_of_inflight s tid t h ht (by rename_i hp; simp [hp, inflightPc])
     split
-    · exact afterFail_inv _ _ (hh.congr (s' := handleFailure { s with cli := .idle } .other) rfl rfl rfl)
+    · exact failBegin_inv _ _ _ (hh.congr (s' := { s with cli := .idle }) rfl rfl rfl)
     · split
-      · exact release_finish _ _ (hh.congr rfl rfl rfl)
-      · exact afterFail_inv _ _ (hh.congr (s' := handleFailure { s with cli := .idle } _) rfl rfl rfl)
+      · dsimp only
+        have h1 : HeldBy (emit (setState { s with cli := .live, tries := 0 } .ready) .onConnect) tid := hh.congr rfl rfl rfl
+        split
+        · exact h1.setPc _
+        · exact release_finish _ _ h1
+      · exact failBegin_inv _ _ _ (hh.congr (s' := { s with cli := .idle }) rfl rfl rfl)
       · exact h
+  · -- inOnConnect
+    have hh := held_of_inflight s tid t h ht (by rename_i hp; simp [hp, inflightPc])
+    split
+    · exact release_finish _ _ hh
+    · exact h
+  · -- inOnError
+    have hh := held_of_inflight s tid t h ht (by rename_i hp; simp [hp, inflightPc])
+    split
+    · exact release_finish _ _ hh
+    · split
+      · exact failEnd_inv _ _ _ hh
+      · exact h
+  · -- inOnDisc
+    have hh := held_of_inflight s tid t h ht (by rename_i hp; simp [hp, inflightPc])
+    split
+    · split
+      · exact discEnd_inv _ _ _ hh
+      · exact h
+    · exact h
 
 theorem complete_inv (s : St) (pc : Pc) (r : Res) (h : LockInv s) : LockInv (complete s pc r) := by
   unfold complete
   split
   · rename_i tid _
     have : Sim s (setTask s tid fun t => { t with result := some r }) := by
+      refine ⟨by simp [setTask], rfl, ?_, id, by simp [setTask], fun _ h => h⟩
+      intro i t' h
+      simp only [setTask] at h
+      grind
+    exact (h.sim this).congr rfl rfl rfl
+  · exact h
+
+theorem completeCb_inv (s : St) (h : LockInv s) : LockInv (completeCb s) := by
+  unfold completeCb
+  split
+  · rename_i tid _
+    have : Sim s (setTask s tid fun t => { t with result := some .ok }) := by
       refine ⟨by simp [setTask], rfl, ?_, id, by simp [setTask], fun _ h => h⟩
       intro i t' h
       simp only [setTask] at h
@@ -579,6 +650,7 @@ theorem step_inv (s : St) (e : Ev) (h : LockInv s) : LockInv (step s e) := by
     · exact h
   | startDone r => exact complete_inv s _ r h
   | finishDone r => exact complete_inv s _ r h
+  | cbDone => exact completeCb_inv s h
   | sessionEnd e =>
     simp only [step]
     split
@@ -613,7 +685,7 @@ theorem step_inv (s : St) (e : Ev) (h : LockInv s) : LockInv (step s e) := by
         exact wakeTask_inv _ _ _ (h.congr rfl rfl rfl) ht
       · exact h.congr rfl rfl rfl
 
-theorem init_inv (b : Bool) : LockInv (init b) := by
+theorem init_inv (b : Bool) (c e d : Bool := false) : LockInv (init b c e d) := by
   constructor <;> simp [init]
 
 theorem run_inv (s : St) (evs : List Ev) (h : LockInv s) : LockInv (run s evs) := by
